@@ -264,6 +264,23 @@ impl Store {
     /// To ensure that the data is persisted, acquire a snapshot of the database
     /// or call flush.
     fn modify<T>(&mut self, f: impl FnOnce(&mut Tables) -> Result<T>) -> Result<T> {
+        self.modify_impl(true, f)
+    }
+
+    /// Like [`Self::modify`], but an open write transaction is continued even if it is older
+    /// than [`MAX_COMMIT_DELAY`].
+    ///
+    /// Use this for the later steps of an operation that modifies the tables in several steps,
+    /// so that no commit can separate the steps and persist a half-applied operation.
+    fn modify_continue<T>(&mut self, f: impl FnOnce(&mut Tables) -> Result<T>) -> Result<T> {
+        self.modify_impl(false, f)
+    }
+
+    fn modify_impl<T>(
+        &mut self,
+        commit_if_old: bool,
+        f: impl FnOnce(&mut Tables) -> Result<T>,
+    ) -> Result<T> {
         let guard = &mut self.transaction;
         let tables = match std::mem::take(guard) {
             CurrentTransaction::None => {
@@ -271,7 +288,7 @@ impl Store {
                 TransactionAndTables::new(tx)?
             }
             CurrentTransaction::Write(w) => {
-                if w.since.elapsed() > MAX_COMMIT_DELAY {
+                if commit_if_old && w.since.elapsed() > MAX_COMMIT_DELAY {
                     tracing::debug!("committing transaction because it's too old");
                     w.commit()?;
                     let tx = self.db.begin_write()?;
@@ -764,7 +781,9 @@ impl<'a> crate::ranger::Store<SignedEntry> for StoreInstance<'a> {
 
     fn entry_put(&mut self, e: SignedEntry) -> Result<()> {
         let id = e.id();
-        self.store.as_mut().modify(|tables| {
+        // `put` calls this right after pruning the entries below the key: both steps have to be
+        // committed together, otherwise a crash could persist the pruning without the entry.
+        self.store.as_mut().modify_continue(|tables| {
             // insert into record table
             let key = (
                 &id.namespace().to_bytes(),
